@@ -313,6 +313,11 @@ def record_sessions(lentil, rng, nsess, nsteps):
             arrs = [f for f in pool if np.asarray(f.data).ndim == 2]
             if rng.random() < 0.15:
                 rng.choice(arrs).offset = [rng.randint(-3, 3), rng.randint(-3, 3)]          # the caller moves a field
+            if rng.random() < 0.1:
+                # ... or gives it new data of ANOTHER shape (its extent follows: data and offset are all there is to a field)
+                tgt = rng.choice(arrs)
+                nsh = rng.choice([(2, 2), (2, 3), (3, 2), (1, 3), (4, 2), (3, 4)])
+                tgt.data = np.array([[complex(*gint(rng)) for _ in range(nsh[1])] for _ in range(nsh[0])])
             ev = {'id': len(events), 'tid': tid, 'seq': k, 'act': act}
             try:
                 if act == 'mul':
@@ -392,6 +397,22 @@ def run(ctx):
                           case={'event': e})
     for e in events:
         ctx.case(('session', e['tid'], e['seq']))
+    # field data handed over in single precision complex are the same numbers: products and intensities are formed in double precision
+    # (entries k * 2**70 are exact in complex64; their products, of order 2**140, exceed its range but not that of complex128)
+    for _ in range(10):
+        sh_ = (rng.randint(2, 3), rng.randint(2, 3))
+        ka = np.array([[complex(rng.randint(1, 3), rng.randint(-2, 2)) for _ in range(sh_[1])] for _ in range(sh_[0])])
+        kb = np.array([[complex(rng.randint(1, 3), rng.randint(-2, 2)) for _ in range(sh_[1])] for _ in range(sh_[0])])
+        ctx.case(('complex64-data', sh_, str(ka.tolist())[:40]))
+        fa = lentil.field.Field((ka * 2.0 ** 70).astype(np.complex64), offset=[0, 0])
+        fb = lentil.field.Field((kb * 2.0 ** 70).astype(np.complex64), offset=[0, 0])
+        import warnings as _w
+        with _w.catch_warnings():
+            _w.simplefilter('ignore')
+            prod = np.asarray((fa * fb).data)
+            inten = lentil.field.insert(fa, np.zeros(sh_), intensity=True)
+        if not (np.all(np.isfinite(prod)) and np.allclose(prod / 2.0 ** 140, ka * kb, rtol=1e-12) and np.allclose(inten / 2.0 ** 140, np.abs(ka) ** 2, rtol=1e-12)):
+            ctx.violation({'op': 'mul', 'kind': 'single-precision-data-not-promoted'}, {'shape': list(sh_), 'finite': bool(np.all(np.isfinite(prod)))}, case=None)
     # a long chain of overlapping fields (each overlaps only its neighbours): reduce must give ONE field holding their sum, and the
     # overlap test must say so, for any number of fields
     for nf in (60, 1300 if q else 2500):
